@@ -35,6 +35,9 @@ type C05Case struct {
 	NoSteer bool      `json:"no_steer,omitempty"`
 	// NoSteerK4: keep going after a rollback without the refresh that avoids K4
 	NoSteerK4 bool `json:"no_steer_k4,omitempty"`
+	// Deadline: the writer's connection has a deadline set (far in the future) all along:
+	// it must not change anything, in particular not the transaction's single write time
+	Deadline bool `json:"deadline,omitempty"`
 }
 
 func genC05Case(t *rapid.T) C05Case {
@@ -43,6 +46,7 @@ func genC05Case(t *rapid.T) C05Case {
 		NKeys: rapid.SampledFrom([]int{4, 8, 16, 30}).Draw(t, "nkeys"),
 	}
 	c.Prefill = rapid.IntRange(0, c.NKeys).Draw(t, "prefill")
+	c.Deadline = rapid.IntRange(0, 2).Draw(t, "deadline") == 0
 	// only for producing witnesses of known findings by hand
 	c.NoSteer = envStr("VERIF_NOSTEER", "") == "all"
 	c.NoSteerK4 = envStr("VERIF_NOSTEER", "") == "k4"
@@ -143,6 +147,12 @@ func runC05(c C05Case, o *Obs) error {
 			m[k] = true
 		}
 		return m, nil
+	}
+	if c.Deadline {
+		if err := conn.Exec("update s3db_conn set deadline='2099-01-01 00:00:00'"); err != nil {
+			return fmt.Errorf("set deadline: %v", err)
+		}
+		o.Class("connection-with-deadline")
 	}
 	view := MSet{}      // the writer's state (incl. uncommitted)
 	committed := MSet{} // what has been committed
